@@ -28,7 +28,7 @@ META = {
 }
 
 TRACE_CONSTANTS = {'Pos': vlib.Raw('{}'), 'ReadBases': vlib.Raw('{}'), 'Quals': vlib.Raw('{}'), 'MaxReads': 0,
-                   'Refs': vlib.Raw('{}'), 'UMIs': vlib.Raw('{}'), 'Cap': 0, 'MaxNs1': vlib.Raw('{}'), 'Variant': 'design'}
+                   'Refs': vlib.Raw('{}'), 'UMIs': vlib.Raw('{}'), 'Sites': vlib.Raw('{}'), 'Cap': 0, 'MaxNs1': vlib.Raw('{}'), 'Variant': 'design'}
 ACTIONS = ['AddRead', 'EndCollect', 'CallAll', 'BuildCigar', 'StepOp', 'Finish']
 
 
@@ -71,6 +71,7 @@ def run(tier):
     c.mc_negative('PseudoRead', 'MC_PseudoRead_split_ge_q.cfg', expect_inv='Inv_D_Split', workers=4)
     c.mc_negative('PseudoRead', 'MC_PseudoRead_tf_no_overflow_q.cfg', expect_inv='Inv_C15_Tags', workers=4)
     c.mc_negative('PseudoRead', 'MC_PseudoRead_umi_max_q.cfg', expect_inv='Inv_C15_Tags', workers=4)
+    c.mc_negative('PseudoRead', 'MC_PseudoRead_site_leftmost_q.cfg', expect_inv='Inv_C15_Tags', workers=4)
     trace = os.path.join(vlib.scratch(), 'pseudoread.ndjson')
     vlib.run_driver('drive_pseudoread.py', [trace, tier, c.seed])
     events = vlib.read_ndjson(trace)
@@ -128,8 +129,9 @@ def run(tier):
     return c.finish(rule='one trace = one molecule put through the consensus writer (API call or one molecule of a command-line run); '
                          'all records of that molecule are judged together',
                     extra_cov={'distinct_nontrivial': len(set(json.dumps(e['reads'], sort_keys=True) for e in ps)),
-                               'via': {v: sum(1 for e in ps if e['via'] == v) for v in ('api', 'api_hist', 'crd', 'cli', 'cli_nosrc')},
+                               'via': {v: sum(1 for e in ps if e['via'] == v) for v in ('api', 'api_hist', 'crd', 'cli', 'cli_nosrc', 'cli_halfmapped')},
                                'records': sum(len(e.get('records', [])) for e in ps),
+                               'molecules_with_several_cut_sites': sum(1 for e in ps if len(set(e['frag_sites'])) > 1),
                                'molecules_with_minority_umis': sum(1 for e in ps if len(set(e['umis'])) > 1),
                                'molecules_written_through_write_pysam': sum(1 for e in ps if e.get('wp')),
                                'molecules_exceeding_max_associated_fragments': sum(1 for e in ps if e['mol']['TF'] > e['mol']['af']),
